@@ -1,5 +1,5 @@
-\* The strict (S) invariants: the code violates each of them (see notes/push_model.md, findings). TLC stops at the first violated
-\* invariant: keep ONE INVARIANT line at a time to see each counterexample (bin: /verif/.work/push/tr.py did that while building).
+\* The strict (S) invariants the code still violates (client role; InvAssert holds since the repair of P6: see MC_Push_client_oldbugs.cfg). TLC stops at the first violated
+\* invariant: keep ONE INVARIANT line at a time to see each counterexample.
 SPECIFICATION MCSpec
 VIEW View
 CONSTANTS
@@ -11,6 +11,7 @@ CONSTANTS
   ResetMax = 1
   ErrorResetMax = 2
   LazyClient = FALSE
+  OldPushBugs = FALSE
   OldIdleCheck = FALSE
   NPeer = 4
   NAppX = 2
@@ -26,6 +27,5 @@ CONSTANTS
   ExportLen = 0
   HasFiller = FALSE
   SimDrops = FALSE
-INVARIANT InvAssert
 INVARIANT InvC09strict
 CHECK_DEADLOCK FALSE
